@@ -894,6 +894,16 @@ pub fn run_c05(tier: Tier) -> i32 {
     for s in crate::pure::words(&['a', 'é', '😀'], 3) {
         values.push(Doc::Str(s));
     }
+    // long strings: multi-byte characters straddling every plausible byte offset (truncation, buffers)
+    for len in [15usize, 16, 17, 31, 32, 33, 47, 48, 49, 63, 64, 65, 127, 128, 129, 255, 256, 257] {
+        values.push(Doc::Str("a".repeat(len)));
+        for pre in 0..2 {
+            values.push(Doc::Str(format!("{}{}", "a".repeat(pre), "é".repeat(len / 2 + 1))));
+        }
+        for pre in 0..4 {
+            values.push(Doc::Str(format!("{}{}", "a".repeat(pre), "😀".repeat(len / 4 + 1))));
+        }
+    }
     for d in [Doc::Null, Doc::Bool(true), Doc::Bool(false), Doc::Seq(vec![]), Doc::Seq(vec![Doc::Int(1)]), Doc::Obj(vec![]), Doc::obj(vec![("a", Doc::Int(1))])] {
         values.push(d);
     }
@@ -1007,7 +1017,7 @@ pub fn run_c05(tier: Tier) -> i32 {
     rec.sample(json!({"target": "f32", "payload": "16777217", "expected": format!("{:?}", scalar_expect(Scalar::F32, &Doc::Int(16777217)))}));
     rec.finish(
         "model_checking",
-        "complete enumeration: 30 scalar targets × 2 value sources × every payload of the stated set (all integers of the range, all ±2^k and ±2^k±1, every target's MIN/MAX ±1, 26 floats incl. ±0, subnormals, f32::MAX neighbours, 2^24±1, 2^53±1, huge; all strings of 0..3 scalar values over {a, é, 😀}; every non-scalar kind). Each executed on the real deserialize with a recording error type. Oracle: independent i128/decimal-string specification — success ⇔ kind admissible ∧ value in domain; result equals the input (floats: the correctly rounded conversion computed from the exact decimal expansion); wrong kind ⇒ exactly one IncorrectValueKind whose accepted set is the admissible set and whose actual is the payload; domain violation ⇒ exactly one Unexpected whose numeric tokens contain the received number and the violated bound (or mention a zero / the string and its length / empty).",
+        "complete enumeration: 30 scalar targets × 2 value sources × every payload of the stated set (all integers of the range, all ±2^k and ±2^k±1, every target's MIN/MAX ±1, 26 floats incl. ±0, subnormals, f32::MAX neighbours, 2^24±1, 2^53±1, huge; all strings of 0..3 scalar values over {a, é, 😀}; 126 long strings of 15..257+ bytes whose multi-byte characters straddle every byte offset; every non-scalar kind). Each executed on the real deserialize with a recording error type. Oracle: independent i128/decimal-string specification — success ⇔ kind admissible ∧ value in domain; result equals the input (floats: the correctly rounded conversion computed from the exact decimal expansion); wrong kind ⇒ exactly one IncorrectValueKind whose accepted set is the admissible set and whose actual is the payload; domain violation ⇒ exactly one Unexpected whose numeric tokens contain the received number and the violated bound (or mention a zero / the string and its length / empty).",
         &["float reference = Rust's correctly rounded decimal parser applied to the exact decimal expansion of the input"],
     )
 }
